@@ -1005,23 +1005,28 @@ func ruleSibExtensible(c *Ctx, r *R) {
 					cut[b] = true
 				case ssa.CallInstruction:
 					callee := x.Common().StaticCallee()
-					if callee != nil && callee.Parent() == fn {
-						// a local refusal helper: a closure every return of which is the constant false (or that panics)
-						{
-							cl := callee
-							refuses := true
-							for _, cb := range cl.Blocks {
-								if ret, ok := cb.Instrs[len(cb.Instrs)-1].(*ssa.Return); ok {
-									k, isK := ret.Results[0].(*ssa.Const)
-									if !isK || k.Value == nil || k.Value.String() != "false" {
-										refuses = false
-									}
+					if callee == nil {
+						continue
+					}
+					if len(callee.Blocks) > 0 && callee.Signature.Results().Len() == 1 {
+						// a refusal helper (a closure of this function or a function of the package): every return of it
+						// is the constant false (or it panics)
+						refuses, nRet := true, 0
+						for _, cb := range callee.Blocks {
+							if ret, ok := cb.Instrs[len(cb.Instrs)-1].(*ssa.Return); ok {
+								nRet++
+								k, isK := ret.Results[0].(*ssa.Const)
+								if !isK || k.Value == nil || k.Value.String() != "false" {
+									refuses = false
 								}
 							}
-							if refuses {
-								cut[b] = true
-							}
 						}
+						if refuses && nRet > 0 {
+							cut[b] = true
+							continue
+						}
+					}
+					if callee.Parent() == fn {
 						continue
 					}
 					if callee.Name() == "objectDefineOwnProperty" || callee.Name() == "typeErrorResult" || readsExt(callee, 1) {
@@ -1137,7 +1142,19 @@ func ruleSibExoticDefine(c *Ctx, r *R) {
 						}
 						if lk, ok := ins.(*ssa.Lookup); ok {
 							if ld, ok := lk.X.(*ssa.UnOp); ok && isFieldAddr(ld.X, "object", "property") {
-								rawSlot[slot] = true
+								// a look at the map after the object's own [[GetOwnProperty]] was asked (and answered) is
+								// bookkeeping, not the decision
+								asked := false
+								for _, b2 := range g.Blocks {
+									for _, i2 := range b2.Instrs {
+										if c2, ok := i2.(*ssa.Call); ok && c2.Call.StaticCallee() != nil && c2.Call.StaticCallee().Name() == "getOwnProperty" && c2.Call.StaticCallee().Signature.Recv() != nil && dominatesInstr(c2, lk) {
+											asked = true
+										}
+									}
+								}
+								if !asked {
+									rawSlot[slot] = true
+								}
 							}
 						}
 					}
